@@ -26,6 +26,8 @@ class Gen:
 
     def bv(self, w, d):
         c, u, rng = self.c, self.u, self.rng
+        if w not in (3, 4):
+            return c.ZeroExt(w - 4, self.bv(4, d)) if w > 4 else self.bv(4, d)[w - 1:0]
         if d <= 0 or rng.random() < 0.15:
             r = rng.random()
             if r < 0.7:
@@ -233,6 +235,16 @@ def main(tier, seed, replay=None):
             # simultaneous substitution of several variables
             ks = rng.sample(["x", "y", "z", "b"], rng.choice([2, 3]))
             mp = {k: g.like(vars_[k], rng.choice([0, 1, 2])) for k in ks}
+            if rng.random() < 0.4:
+                # images that are keys themselves (swap), on an expression containing the same shape over both variables
+                mp = {"x": u.y, "y": u.x} if rng.random() < 0.7 else {"x": u.y, "y": g.bv(4, 1)}
+                t1 = g.any(rng.choice([1, 2, 3]))
+                t2 = claripy.replace_dict(t1, {u.x.hash(): u.y, u.y.hash(): u.x}) if rng.random() < 0.8 else g.like(t1, 2)
+                if isinstance(t1, claripy.ast.Bool):
+                    e = rng.choice([claripy.And, claripy.Or, lambda a, b: a == b, lambda a, b: claripy.If(u.b, a, b)])(t1, t2)
+                else:
+                    e = rng.choice([lambda a, b: a * b, lambda a, b: a - b, lambda a, b: claripy.ULT(a, b),
+                                    lambda a, b: claripy.If(u.b, a, b), lambda a, b: claripy.Concat(a, b)])(t1, t2)
             try:
                 r = claripy.replace_dict(e, {vars_[k].hash(): v for k, v in mp.items()})
             except Exception as ex:  # noqa
